@@ -198,6 +198,7 @@ def check(ctx: Ctx) -> None:
         for name in ("__eq__", "__ne__", "__hash__", "__str__"):
             m = repo.cls("XSpec").methods.get(name)
             ob.require(m is not None, f"XSpec.{name} vanished")
+            m = repo.func(m.qualname)
             attrs = {n.attr for n in repo.own_nodes(m) if isinstance(n, ast.Attribute) and unparse(n.value) == "self"}
             ob.site(m, None, f"{name} depends on the spec text only", self_attrs=sorted(attrs))
             if attrs != {"_spec"}:
@@ -205,13 +206,14 @@ def check(ctx: Ctx) -> None:
             rets = [n for n in repo.own_nodes(m) if isinstance(n, ast.Return)]
             r = rets[0].value if len(rets) == 1 else None
             if name in want:
-                ok = isinstance(r, ast.Compare) and isinstance(r.ops[0], want[name]) and unparse(r.left) == "self._spec" \
-                    and unparse(r.comparators[0]) in ("getattr(other, '_spec', None)", "other._spec")
+                other = m.params()[1] if len(m.params()) > 1 else "other"
+                ok = isinstance(r, ast.Compare) and len(r.ops) == 1 and isinstance(r.ops[0], want[name]) and \
+                    {xtext(repo, m, r.left), xtext(repo, m, r.comparators[0])} in ({"self._spec", f"getattr({other}, '_spec', None)"}, {"self._spec", f"{other}._spec"})
                 if not ok:
                     ob.violation(m, m.node, f"XSpec.{name} is not a comparison of the two spec texts")
-            elif name == "__hash__" and unparse(r) != "hash(self._spec)":
+            elif name == "__hash__" and xtext(repo, m, r) != "hash(self._spec)":
                 ob.violation(m, m.node, "XSpec.__hash__ is not the hash of the spec text")
-            elif name == "__str__" and unparse(r) != "self._spec":
+            elif name == "__str__" and xtext(repo, m, r) != "self._spec":
                 ob.violation(m, m.node, "str(spec) does not print the spec text back unchanged")
         st = [n for n in repo.own_nodes(fx) if isinstance(n, ast.Assign) and unparse(n.targets[0]) == "self._spec"]
         if len(st) != 1 or unparse(st[0].value) != fx.params()[1]:
@@ -270,7 +272,7 @@ def check(ctx: Ctx) -> None:
     with ctx.obligation("C20.d", "autoid") as ob:
         n = 0
         for fi0 in repo.cls("Group").methods.values():
-            if fi0.name == "__init__":
+            if fi0.name in ("__init__", "allocate_id"):
                 continue
             fi = repo.func(fi0.qualname)
             for x in repo.own_nodes(fi):
@@ -280,13 +282,29 @@ def check(ctx: Ctx) -> None:
                     ob.site(fi, x, "_autoidcounter access", held=sorted(held))
                     if IDLOCK not in held:
                         ob.violation(fi, x, "the auto-id counter is accessed outside _autoidlock: concurrent makegateway calls can get the same id")
-        ob.require(n >= 2, f"{n} counter accesses (floor 2)")
+        # allocate_id itself: on every feasible path the counter is read / advanced and the automatic id is tested
+        # while the lock is held (with-statement, acquire/try/finally or a conditionally chosen guard object)
         spec = fa.params()[1]
-        tests = [x for x in repo.own_nodes(fa) if isinstance(x, ast.Compare) and len(x.ops) == 1 and isinstance(x.ops[0], (ast.In, ast.NotIn))
-                 and unparse(x.comparators[0]) == "self" and xtext(repo, fa, x.left) != f"{spec}.id"]
-        for t in tests:
-            if IDLOCK not in lexical_locks(repo, fa, t):
-                ob.violation(fa, t, "the uniqueness test of an automatic id runs outside the lock")
+        LOCKT, CNT0, SELF = ("sym", "self._autoidlock"), ("sym", "self._autoidcounter"), ("sym", "self")
+        evl = evaluator(repo, fa)
+        seen = set()
+        for (_p, st) in evl.run():
+            for e in st.events:
+                vals = list(e.args) + list(e.kwargs.values()) + ([e.value] if e.value is not None else [])
+                touches = e.target == "self._autoidcounter" or any(mentions(v, CNT0) for v in vals if isinstance(v, tuple))
+                if not touches or e.kind not in ("assign", "call", "store"):
+                    continue
+                ok = LOCKT in e.held
+                if id(e.node) not in seen:
+                    seen.add(id(e.node))
+                    n += 1
+                    ob.site(fa, e.node, "_autoidcounter access", held=[show(h) for h in e.held])
+                if not ok:
+                    ob.violation(fa, e.node, "the auto-id counter is accessed outside _autoidlock: concurrent makegateway calls can get the same id")
+            for ((t, v), h) in zip(st.cond, st.cond_held):
+                if t[0] == "cmp" and t[1] == "in" and t[3] == SELF and mentions(t[2], CNT0) and LOCKT not in h:
+                    ob.violation(fa, fa.node, "the uniqueness test of an automatic id runs outside the lock")
+        ob.require(n >= 2, f"{n} counter accesses (floor 2)")
         ev = evaluator(repo, fa)
         CNT = ("sym", "self._autoidcounter")
         nauto = 0
